@@ -103,10 +103,11 @@ claim("C09", "DESIGN.md §5 C09, §11",
       "Sequence-based soundness assumes L >= 3, a self-consistent graph and the depot self-arc; path-based soundness assumes the sampler returns one of the candidates it is offered (numpy.random.choice).")
 
 claim("C10", "DESIGN.md §5 C10",
-      "Lean 4 theorems at record level (records = exactly the non-zero coefficients, each once at its own indices, rounded; loader recovers them entrywise; reloaded Ising energy = energy of the rounded problem at every spin vector; identity on hundredths; integer QUBOs give hundredth Ising coefficients hence exact reload) + byte-level comparison of the written file, loader comparison, test-set generator run",
+      "Lean 4 theorems at record level (records = exactly the non-zero coefficients, each once at its own indices, rounded; loader recovers them entrywise; reloaded Ising energy = energy of the rounded problem at every spin vector; identity on hundredths; integer QUBOs give hundredth Ising coefficients hence exact reload) and at character level (the line-by-line model of load_matrix applied to the rendered text returns the written records) + byte-level comparison of the written file, loader comparison on written and edited files, test-set generator run",
       "Proved: export lists every non-zero linear and coupling coefficient exactly once at its own indices rounded to two decimals (half-even) with the constant, nothing else; loading the file yields entrywise the rounded coefficients (dimension <= n, missing trailing variables have no coefficient), so the energy functions agree at every spin vector; "
-      "exact for feasibility instances (integer QUBO). The text layout is produced from the record model and compared byte-for-byte with the real file (minus timestamp); the package's loader output is compared with the model; gen() on small horizons: file names vs variable counts, saved constraint data reloaded through convenience().",
-      "Character-level parse/render is compared, not proved; file I/O, np.savez/pickle exercised, not proved.")
+      "exact for feasibility instances (integer QUBO). Character level: renderLines (digits, '.2f' text, comment lines) and loadText (line[0], split('='), split(), int, float, length assertion, square shape) are Lean functions; Props/C10b proves loadText (renderLines f) = loadFile f for every sign-consistent file and that export's files are sign-consistent. "
+      "renderLines is compared byte-for-byte with the real file (minus timestamp), loadText with the real loader on the written file and 10 edited variants; gen() on small horizons: file names vs variable counts, saved constraint data reloaded through convenience().",
+      "The number parsers of the loader model accept exactly the spellings export writes; file I/O, np.savez/pickle exercised, not proved.")
 claim("C14", "DESIGN.md §5 C14, §11",
       "Lean 4 refinement proof: the object with lazily built caches and flag resets (generic machine, instantiated for the arc- and sequence-based objects with the heuristics' reset sites) gives the same replies as the cache-free specification on every call history + correspondence of flags/outcomes/state + twin-run oracle on real objects",
       "Proved for every call history (queries in any number and order, any number of heuristic runs): every reply of the cached object equals the reply computed from the instance state alone; asking twice gives equal results; queries before or between heuristic runs change neither the instance, the stored solution nor any later reply; "
